@@ -730,14 +730,14 @@ func sweepC19(c *core.Ctx) {
 						return core.Fail("Accumulate of a batch of %d: %v", L, err)
 					}
 					r, _ := m.Result()
-					if exp := float64(L-len(mism)) / float64(L); r != exp {
+					if exp := float64(L-len(mism)) / float64(L); !accEq(r, exp) {
 						return core.Fail("one batch of %d positions with mismatches at %v (layout %d): Result %v, expected %v", L, mism, li, r, exp)
 					}
 					// the same batch in two halves on one metric
 					m2 := metrics.NewAccuracy()
 					c19Apply(m2, c19Ev{Kind: "batch", P: p[:L/2], T: t[:L/2]})
 					c19Apply(m2, c19Ev{Kind: "batch", P: p[L/2:], T: t[L/2:]})
-					if r2, _ := m2.Result(); r2 != r {
+					if r2, _ := m2.Result(); !accEq(r2, r) {
 						return core.Fail("%d positions, mismatches at %v: Result %v as one batch, %v in two halves", L, mism, r, r2)
 					}
 				}
@@ -774,7 +774,7 @@ func sweepC19Totals(c *core.Ctx) {
 				if err, _ := c19Apply(m, c19Ev{Kind: "batch", P: p, T: t}); err != nil {
 					return core.Fail("batch %d of %d positions: %v", bi, size, err)
 				}
-				if r, _ := m.Result(); r != float64(correct)/float64(total) {
+				if r, _ := m.Result(); !accEq(r, float64(correct)/float64(total)) {
 					return core.Fail("one metric, batches so far %v...: after batch %d (size %d) Result %v, expected %d/%d = %v", []int{n/2 + 3, n/2 + 3, 7, 100, 1, n / 4, 6}[:bi+1], bi, size, r, correct, total, float64(correct)/float64(total))
 				}
 			}
@@ -791,17 +791,33 @@ func extremeLabelsC19(c *core.Ctx) {
 	// as for Eq / Equals, in EVERY partition - also in a batch of one)
 	P := []float64{1e308, 1.5e308, -1.7e308, math.MaxFloat64, 5e-324, 0, 1e308, -1e308, 2, 1.7e308, 1e-300, -4e-280, 3e-250}
 	T := []float64{1e308, 1.5e308, -1.7e308, math.MaxFloat64, 5e-324, math.Copysign(0, -1), 1.1e308, 1e308, 2, 1.7e308, 0, 4e-280, 0}
-	want := 0
+	// positions whose labels are closer than 1e-240 may count as equal (the library's tolerance for
+	// Eq) or as different (exact comparison): both are readings of "equal"; what IS demanded is that
+	// every partition gives the same answer
+	wantExact, wantTol := 0, 0
 	for i := range P {
+		if P[i] == T[i] {
+			wantExact++
+		}
 		if math.Abs(P[i]-T[i]) <= ref.EqTolerance {
-			want++
+			wantTol++
 		}
 	}
 	n := len(P)
+	whole := func() float64 {
+		m := metrics.NewAccuracy()
+		c19Apply(m, c19Ev{Kind: "batch", P: P, T: T})
+		r, _ := m.Result()
+		return r
+	}
 	for cut1 := 0; cut1 <= n; cut1++ {
 		for cut2 := cut1; cut2 <= n; cut2++ {
 			cut1, cut2 := cut1, cut2
 			c.Case(fmt.Sprintf("extreme/%d,%d", cut1, cut2), true, func() core.Verdict {
+				ref0 := whole()
+				if !accEq(ref0, float64(wantExact)/float64(n)) && !accEq(ref0, float64(wantTol)/float64(n)) {
+					return core.Fail("labels %v vs %v as ONE batch: Result %v, expected %d/%d (or %d/%d if labels closer than 1e-240 count as equal)", P, T, ref0, wantExact, n, wantTol, n)
+				}
 				m := metrics.NewAccuracy()
 				for _, r := range [][2]int{{0, cut1}, {cut1, cut2}, {cut2, n}} {
 					if r[0] == r[1] {
@@ -811,14 +827,17 @@ func extremeLabelsC19(c *core.Ctx) {
 						return core.Fail("a valid batch of finite labels %v / %v was rejected: %v", P[r[0]:r[1]], T[r[0]:r[1]], err)
 					}
 				}
-				if r, _ := m.Result(); r != float64(want)/float64(n) {
-					return core.Fail("labels %v vs %v in batches cut at %d and %d: Result %v, expected %d/%d", P, T, cut1, cut2, r, want, n)
+				if r, _ := m.Result(); !accEq(r, ref0) {
+					return core.Fail("labels %v vs %v in batches cut at %d and %d: Result %v, but %v as one batch (the result depends on how the data were split)", P, T, cut1, cut2, r, ref0)
 				}
 				return core.Pass()
 			})
 		}
 	}
 }
+
+// accEq: two accuracy values agree (1e-12: correct/total computed in another order differs by an ulp)
+func accEq(a, b float64) bool { return math.Abs(a-b) <= 1e-12 }
 
 // producedC19: predictions / targets that are results of operations (every
 // producer of the composition cases, comparison results, tracked tensors), and
@@ -836,6 +855,7 @@ func producedC19(c *core.Ctx) {
 						return core.Fail("producer %s node %d: %v", pr.name, failed, err)
 					}
 					ry := ts[len(ts)-1]
+					y = rt.Read(ry) // labels are built from what the library actually produced (another rounding of a product is as good)
 					other := y.Clone()
 					want := 0
 					for i := range other.V {
@@ -859,7 +879,7 @@ func producedC19(c *core.Ctx) {
 					if aerr != nil {
 						return core.Fail("Accumulate with a tensor produced by %s (role %d): %v", pr.name, role, aerr)
 					}
-					if r, _ := m.Result(); r != float64(want)/float64(n) {
+					if r, _ := m.Result(); !accEq(r, float64(want)/float64(n)) {
 						return core.Fail("Accumulate with a tensor produced by %s (values %v, role %d: 0 prediction, 1 target, 2 both): Result %v, expected %d/%d", pr.name, y.V, role, r, want, n)
 					}
 					if ok, msg := core.ExactEq(rt.Read(ry), y); !ok {
@@ -891,14 +911,14 @@ func producedC19(c *core.Ctx) {
 			if err := m.Accumulate(gt, ne); err != nil {
 				return core.Fail("Accumulate(Gt result, Ne result): %v", err)
 			}
-			if r, _ := m.Result(); r != 1 {
+			if r, _ := m.Result(); !accEq(r, 1) {
 				return core.Fail("Accumulate(Gt result, Ne result) with identical labels: Result %v, expected 1", r)
 			}
 			if err := m.Accumulate(gt, eq); err != nil {
 				return core.Fail("Accumulate(Gt result, Eq result): %v", err)
 			}
 			_ = want
-			if r, _ := m.Result(); r != 0.5 {
+			if r, _ := m.Result(); !accEq(r, 0.5) {
 				return core.Fail("after a second batch of complementary labels: Result %v, expected 0.5", r)
 			}
 			return core.Pass()
